@@ -140,9 +140,10 @@ def run(ctx):
         rate = bw if cls in ('BasebandSignal', 'DualPolarizationSignal') else rng.choice([1.0, 10.0, 100.0, 1000.0, 3e4]) * u.kHz
         al = rng.choice(['bottom', 'center', 'top'])
         start = Time(rng.choice(X.EPOCHS), precision=9) if rng.random() < 0.7 else None
+        cf, rate = cf.to(rng.choice([u.Hz, u.kHz, u.MHz, u.GHz])), rate.to(rng.choice([u.Hz, u.kHz, u.MHz, u.GHz]))       # assorted units
         kw = dict(sample_rate=rate, center_freq=cf, freq_align=al, start_time=start)
         if cls in ('RadioSignal', 'IntensitySignal', 'FullStokesSignal'):
-            kw['chan_bw'] = bw
+            kw['chan_bw'] = bw.to(rng.choice([u.Hz, u.kHz, u.MHz, u.GHz]))
         if cls == 'DualPolarizationSignal':
             kw['pol_type'] = 'linear'
         z = getattr(pb, cls)(data, **kw)
@@ -151,6 +152,8 @@ def run(ctx):
         refsel = rng.choice(['default', 'center', 'top', 'bottom', 'above', 'below', 'inside'])
         ref = {'default': None, 'center': z.center_freq, 'top': z.max_freq, 'bottom': z.min_freq,
                'above': z.max_freq * 1.02, 'below': z.min_freq * 0.98, 'inside': z.min_freq + 0.3 * z.bandwidth}[refsel]
+        if ref is not None and rng.random() < 0.6:
+            ref = ref.to(rng.choice([u.Hz, u.kHz, u.MHz, u.GHz]))
         rfq = X.hz(z.center_freq if ref is None else ref)
         labs = [X.hz(f) for f in z.channel_freqs]
         ends = [X.hz(z.min_freq), X.hz(z.max_freq), rfq] + labs
